@@ -597,6 +597,17 @@ theorem folded_eq_ref (exp : Rat → Rat) (hexp : ∀ a, exp (-a) * exp a = 1) (
             | nil => simp [listMin] at hmn
             | cons a t => exact map_congr_of_eq _ (fold_modlut_voilut p st mfirst vfirst mdata a t mn mx s hp hv hmn hmx hne h1 h2 h3)
 
+/-- The flag stage hands the pipeline stage only stages whose parameters exist: the presence hypotheses of
+`WellFormed` (and the non-`none` real-world map) are consequences of `stageOutcome`, not assumptions. -/
+theorem stages_have_parameters (fl : Flags) (ct : CType) (p : Params) (icc inverse : Bool) (st : Stages)
+    (h : stageOutcome fl ct (presentOf p icc inverse) = .ok st) :
+    (st.rwvm = true → p.rwvm ≠ .none) ∧ (st.modality = true → p.modality ≠ .none) ∧ (st.voi = true → p.voi ≠ .none) := by
+  obtain ⟨h1, h2, h3, _, _⟩ := (flag_none_iff_present fl ct (presentOf p icc inverse) st h).2
+  refine ⟨?_, ?_, ?_⟩
+  · intro hs hn; have := h1 hs; simp [presentOf, hn] at this
+  · intro hs hn; have := h2 hs; simp [presentOf, hn] at this
+  · intro hs hn; have := h3 hs; simp [presentOf, hn] at this
+
 /-! ## Quantifier: output dtype -/
 
 /-- **Output dtype.**  When `_check_rescale_dtype` accepts an integer output type, every value the rescale
